@@ -17,7 +17,10 @@ EDITS = [
  ("c13-attr-reader-drops-interrupted-arm", "C13", 1, "rbx_types/src/attributes/reader.rs",
   "            Err(e) if e.kind() == io::ErrorKind::Interrupted => {}\n            Err(e) => return Err(e),",
   "            Err(e) => return Err(e),"),
- ("c13-read-u8-uses-bare-read", "C13", 1, "rbx_binary/src/core.rs",
+ # read_u8 is only ever called on in-memory chunk slices, which never deliver short or
+ # interrupted reads; a bare read() there turns "chunk data ends early" into zeros, which
+ # changes Ok/Err for damaged files but breaks nothing C13 states. Must NOT alarm.
+ ("c13-read-u8-uses-bare-read(equivalent-under-C13)", "C13", 0, "rbx_binary/src/core.rs",
   "        let mut buffer = [0u8];\n        self.read_exact(&mut buffer)?;\n\n        Ok(buffer[0])",
   "        let mut buffer = [0u8];\n        let _ = self.read(&mut buffer)?;\n\n        Ok(buffer[0])"),
  ("c13-read-le-u32-uses-bare-read", "C13", 1, "rbx_binary/src/core.rs",
@@ -30,8 +33,8 @@ EDITS = [
   "            let chunk = deserializer.next_chunk()?;\n",
   "            let chunk = match deserializer.next_chunk() {\n                Ok(chunk) => chunk,\n                Err(_) => break,\n            };\n"),
  ("c13-xml-expect-next-unwraps", "C13", 1, "rbx_xml/src/deserializer_core.rs",
-  "            Some(Err(err)) => Err(self.error(err)),\n            None => Err(self.error(DecodeErrorKind::UnexpectedEof)),\n        }\n    }\n\n    pub fn expect_peek",
-  "            Some(Err(err)) => Err(self.error(err)),\n            None => panic!(\"unexpected end of document\"),\n        }\n    }\n\n    pub fn expect_peek"),
+  "            Some(Ok(event)) => Ok(event),\n            Some(Err(err)) => Err(self.error(err)),\n            None => Err(self.error(DecodeErrorKind::UnexpectedEof)),\n        }\n    }\n\n    pub fn expect_peek",
+  "            Some(Ok(event)) => Ok(event),\n            Some(Err(err)) => panic!(\"xml error {:?}\", self.error(err).to_string()),\n            None => Err(self.error(DecodeErrorKind::UnexpectedEof)),\n        }\n    }\n\n    pub fn expect_peek"),
  ("c13-chunk-reserved-panics-again", "C13", 1, "rbx_binary/src/chunk.rs",
   "    if reserved != 0 {\n        return Err(io::Error::new(",
   "    if reserved != 0 {\n        panic!(\"reserved {}\", reserved);\n        #[allow(unreachable_code)]\n        return Err(io::Error::new("),
